@@ -69,6 +69,84 @@ def trace (m : OpenMode) (w : BufFile) : List Op → List Bytes
 
 end FileAppender
 
+
+/-! ### several handles on one file, foreign writers, failing encoders
+
+`FileAppender::build` opens with `append(true)` in append mode: `O_APPEND`, i.e. *every* `write`
+of *every* such handle goes to the current end of the file (the kernel's guarantee — modelled, not
+verified). So with a second `FileAppender` on the same path, or a foreign process doing `>>`, the
+file is the plain concatenation of all writes in the order they happen. (In truncate mode the
+handle has its own offset; histories with more than one handle are not modelled there.)
+
+`append` with a failing encoder: `self.encoder.encode(&mut *file, record)?` returns early — the
+slices written before the error stay in the `BufWriter` (or are already on disk if they spilled)
+and nothing flushes or discards them: they reach the file in front of the next record of that
+appender, or when the appender is dropped. This is the code as it is (finding
+`C04/seq-encoder-error-torn`). -/
+
+/-- one shared file, one pending buffer per live appender -/
+structure Handles where
+  file : Bytes
+  bufs : List Bytes
+  deriving Repr, DecidableEq
+
+inductive MOp where
+  /-- appender `k` handles a record; `failAfter = some n`: the encoder writes the first `n` slices
+  and then returns `Err` -/
+  | append (k : Nat) (r : Rec) (failAfter : Option Nat)
+  /-- another process appends `x` through its own `O_APPEND` handle -/
+  | foreign (x : Bytes)
+  /-- one more `FileAppender` is built on the same path -/
+  | build
+  /-- appender `k` is dropped (its `BufWriter` flushes) and a new one is built in its place -/
+  | restart (k : Nat)
+  deriving Repr
+
+namespace Handles
+
+def view (s : Handles) (k : Nat) : BufFile := { disk := s.file, buf := s.bufs[k]?.getD [] }
+
+def store (s : Handles) (k : Nat) (w : BufFile) : Handles := { file := w.disk, bufs := s.bufs.set k w.buf }
+
+def init (m : OpenMode) (pre : Option Bytes) : Handles := { file := openContent m pre, bufs := [[]] }
+
+def applyOp (m : OpenMode) (s : Handles) : MOp → Handles
+  | .append k r none => if k < s.bufs.length then s.store k (FileAppender.append (s.view k) r) else s
+  | .append k r (some n) => if k < s.bufs.length then s.store k (FileAppender.encode (s.view k) (r.take n)) else s
+  | .foreign x => { s with file := s.file ++ x }
+  | .build => { file := openContent m (some s.file), bufs := s.bufs ++ [[]] }
+  | .restart k =>
+    if k < s.bufs.length then
+      { file := openContent m (some (s.view k).flush.disk), bufs := s.bufs.set k [] }
+    else s
+
+/-- what any reader sees after every single operation -/
+def trace (m : OpenMode) (s : Handles) : List MOp → List Bytes
+  | [] => []
+  | op :: ops => (applyOp m s op).file :: trace m (applyOp m s op) ops
+
+end Handles
+
+/-- appender indices of a history refer to appenders that exist (`n` = how many exist) -/
+def validOps : Nat → List MOp → Bool
+  | _, [] => true
+  | n, .append k _ _ :: ops => decide (k < n) && validOps n ops
+  | n, .foreign _ :: ops => validOps n ops
+  | n, .build :: ops => validOps (n + 1) ops
+  | n, .restart k :: ops => decide (k < n) && validOps n ops
+
+/-- the encoder of this operation fails after having written something -/
+def MOp.torn : MOp → Bool
+  | .append _ r (some n) => !(r.take n).flatten.isEmpty
+  | _ => false
+
+/-- the operation involves a handle other than the first appender's -/
+def MOp.multi : MOp → Bool
+  | .append k _ _ => k != 0
+  | .foreign _ => true
+  | .build => true
+  | .restart k => k != 0
+
 /-! ### the concurrent machine -/
 
 /-- where a thread is inside `append` -/
